@@ -24,14 +24,15 @@ THEOREMS = {
     "C06": ["Conc.locked_object_linearizable", "Conc.impl_refines_spec", "Conc.spec_linearizable", "Conc.impl_wellFormed",
             "Verif.Conc.table_wellLocked", "Verif.Conc.table_classes", "Verif.Conc.generated_cs_no_overlap",
             "Verif.Conc.generated_rel_by_holder"],
-    "C07": ["Verif.Conc.table_wellLocked", "Verif.Conc.table_classes", "Verif.Conc.generated_race_free",
-            "Verif.Conc.generated_access_under_lock", "Verif.Conc.generated_happens_before", "Verif.Conc.race_free",
-            "Verif.Conc.access_under_lock", "Verif.Conc.happens_before"],
+    "C07": ["Verif.Conc.table_guarded", "Verif.Conc.table_guarded_classes", "Verif.Conc.generated_guarded_race_free",
+            "Verif.Conc.generated_guarded_access_under_lock", "Verif.Conc.generated_guarded_happens_before",
+            "Verif.Conc.guarded_race_free", "Verif.Conc.guarded_access_under_lock", "Verif.Conc.guarded_happens_before",
+            "Verif.Conc.wellLocked_guarded"],
 }
 
 EXPLAIN = {
     "C06": "locked_object_linearizable: any object whose methods run their whole body in one critical section of one mutex (arbitrary intermediate writes allowed inside) has only Herlihy-Wing linearizable histories, for any number of threads and any schedule; table_wellLocked: every public method of the ten containers, as read from the current headers by tools/lockshape.py, has that form (range methods: the loop is inside the one critical section, so a range is one atomic step). PARTIAL: the theorem is about the lock-level model; that the critical section's net effect is the sequential operation is the sequential tie (C01-C20 correspondence); std::mutex is trusted.",
-    "C07": "generated_race_free / generated_happens_before: in every execution of the token-level machine over the generated table no two threads have conflicting enabled accesses, and two conflicting accesses are separated by a release of one thread and an acquire of the other; components no method writes (vector headers, construction-time constants) conflict with nothing. PARTIAL: a data race is a property of the C++ abstract machine; the model reaches it through the translator's access table (const use = read), cross-checked by ThreadSanitizer on all method pairs.",
+    "C07": "table_guarded (every access to mutable state of every public method lies inside some critical section; weaker than C06's one-critical-section shape) => generated_guarded_race_free / generated_guarded_happens_before: in every execution of the token-level machine over the generated table no two threads have conflicting enabled accesses, and two conflicting accesses are separated by a release of one thread and an acquire of the other; components no method writes (vector headers, construction-time constants) conflict with nothing. PARTIAL: a data race is a property of the C++ abstract machine; the model reaches it through the translator's access table (const use = read), cross-checked by ThreadSanitizer on all method pairs.",
 }
 
 
@@ -86,15 +87,19 @@ def translate():
     return r.returncode == 0, r.stdout + r.stderr
 
 
-def table_build():
-    r = C.sh(["lake", "build", "Verif.Conc.RaceFreeTable"], cwd=C.LEAN)
+TARGET = {"C06": "Verif.Conc.RaceFreeTable", "C07": "Verif.Conc.GuardedTable"}
+
+
+def table_build(prop):
+    r = C.sh(["lake", "build", TARGET[prop]], cwd=C.LEAN)
     return r.returncode == 0, (r.stdout + r.stderr)[-3000:]
 
 
-def bad_methods():
-    """Names of the methods of the regenerated table that are not WellLocked, with their shapes."""
-    src = ("import Verif.Conc.Shape\nimport Verif.Generated.LockShape\nopen Verif.Conc in\n"
-           "#eval (Generated.table.filter (fun m => !m.wellLocked Generated.table)).map (·.name)\n")
+def bad_methods(prop):
+    """Names of the methods of the regenerated table that fail the shape obligation, with their shapes."""
+    pred = "wellLocked" if prop == "C06" else "guarded"
+    src = ("import Verif.Conc.Guarded\nimport Verif.Generated.LockShape\nopen Verif.Conc in\n"
+           "#eval (Generated.table.filter (fun m => !m.%s Generated.table)).map (·.name)\n" % pred)
     tmp = os.path.join(C.CACHE, "bad-%d.lean" % os.getpid())
     open(tmp, "w").write(src)
     r = C.sh(["lake", "env", "lean", tmp], cwd=C.LEAN)
@@ -152,6 +157,9 @@ def histories(exe, kinds, seed, n, n_poll):
         if k not in ("utmap", "utset"):
             r2 = subprocess.run([exe, "hist", k, str(seed + 1), str(n_poll), "2", "12", str(cap), "poll"], stdout=subprocess.PIPE, stderr=subprocess.PIPE, text=True)
             out.append(r2.stdout)
+        if k not in ("utmap", "utset"):
+            r3 = subprocess.run([exe, "hist", k, str(seed + 2), str(max(2, n_poll // 6)), "2", "5", "260", "bigrange"], stdout=subprocess.PIPE, stderr=subprocess.PIPE, text=True)
+            out.append(r3.stdout)
         text = "".join(out)
         d = subprocess.run([C.DRIVER], input=text, stdout=subprocess.PIPE, stderr=subprocess.PIPE, text=True)
         scripts = [s for s in text.split("end\n") if s.strip()]
@@ -186,9 +194,9 @@ def main(prop, tier, seed, t0):
     kinds = gen.KINDS
     tr_ok, tr_log = translate()
     ok, log = C.lean_build()
-    tb_ok, tb_log = table_build() if tr_ok else (False, tr_log)
-    audit = C.lean_audit_conc(THEOREMS[prop]) if (ok and tb_ok) else {"ok": False, "axioms": {}, "missing": THEOREMS[prop], "forbidden": [], "extra_axioms": {}}
-    bad = bad_methods() if (tr_ok and not tb_ok) else []
+    tb_ok, tb_log = table_build(prop) if tr_ok else (False, tr_log)
+    audit = C.lean_audit(THEOREMS[prop], imports=("Verif", TARGET[prop])) if (ok and tb_ok) else {"ok": False, "axioms": {}, "missing": THEOREMS[prop], "forbidden": [], "extra_axioms": {}}
+    bad = bad_methods(prop) if (tr_ok and not tb_ok) else []
     violations = 0
     rc = 0
     cov = {}
@@ -208,7 +216,7 @@ def main(prop, tier, seed, t0):
         if races:
             r = races[0]
             path = os.path.join(replay_dir, "C07-%s-%d.txt" % (seed, len(races)))
-            open(path, "w").write("# data race reported by ThreadSanitizer on the real code\n# container: %s   method pair: %s\n# replay: <conc tsan binary> tsan %s %d\n# methods not WellLocked in the regenerated table: %s\n%s\n" % (
+            open(path, "w").write("# data race reported by ThreadSanitizer on the real code\n# container: %s   method pair: %s\n# replay: <conc tsan binary> tsan %s %d\n# methods failing the shape obligation in the regenerated table: %s\n%s\n" % (
                 r["kind"], r["pair"], r["kind"], iters, bad, r["report"]))
             print("VIOLATION property=C07 replay=%s" % path)
             violations, rc = len(races), 1
@@ -222,19 +230,19 @@ def main(prop, tier, seed, t0):
         n, npoll = (40, 30) if tier == "quick" else (1500, 600)
         tot, fails, und, samples = histories(exe, kinds, seed, n, npoll)
         cov.update({"histories_checked": tot, "histories_undecided": und, "histories_not_linearizable": len(fails),
-                    "threads_per_history": "3 x 4 calls (mix), 2 x 12 calls (poll: evicting inserts vs size()/empty())",
+                    "threads_per_history": "3 x 4 calls (mix), 2 x 12 calls (poll: evicting inserts vs size()/empty()), 2 x 5 calls (bigrange: find_range over 200 keys vs insert_range rewriting the first and the last of them)",
                     "samples": samples or [{"note": "none"}]})
         if fails:
             f = fails[0]
             path = os.path.join(replay_dir, "C06-%s-%d.txt" % (seed, len(fails)))
-            open(path, "w").write("# a history recorded from real threads that no sequential order of the same calls explains\n# (h <thread> <invocation stamp> <response stamp> <clock> <call> => <result>); %s\n# methods not WellLocked in the regenerated table: %s\n%s" % (f["text"], bad, f["history"]))
+            open(path, "w").write("# a history recorded from real threads that no sequential order of the same calls explains\n# (h <thread> <invocation stamp> <response stamp> <clock> <call> => <result>); %s\n# methods failing the shape obligation in the regenerated table: %s\n%s" % (f["text"], bad, f["history"]))
             print("VIOLATION property=C06 replay=%s" % path)
             violations, rc = len(fails), 1
     if rc == 0 and not (ok and tb_ok and audit["ok"]):
         path = os.path.join(replay_dir, "%s-%s-0.txt" % (prop, seed))
         note = "# the Lean obligation for %s no longer checks on the table regenerated from the current headers\n" % prop
         if bad:
-            note += "# theorem Verif.Conc.table_wellLocked fails: methods that are not WellLocked, with their shapes:\n"
+            note += "# theorem Verif.Conc.%s fails: methods that do not have the required lock shape, with their shapes:\n" % ("table_wellLocked" if prop == "C06" else "table_guarded")
             for n_, sh_ in bad:
                 note += "#   %s : %s\n" % (n_, sh_)
         else:
@@ -260,10 +268,10 @@ def finish(prop, tier, seed, t0, audit, cov, violations, bad):
         "property_id": prop, "tier": tier, "seed": seed, "level": "proof",
         "coverage": {
             "obligations": len(thms), "discharged": len(discharged) if audit.get("ok") else 0,
-            "checker_cmd": "python3 tools/lockshape.py && cd lean && lake build && lake build Verif.Conc.RaceFreeTable && lake env lean <#print axioms>",
+            "checker_cmd": "python3 tools/lockshape.py && cd lean && lake build && lake build %s && lake env lean <#print axioms>" % TARGET[prop],
             "trusted_base": P.TRUSTED_BASE + ["tools/lockshape.py (clang 14 JSON AST walk, const-use = read classification, std::vector split into header/data); std::mutex provides mutual exclusion and release->acquire ordering; `decide +kernel` evaluates table_wellLocked in the kernel (no extra axiom)"],
             "theorems": thms, "axioms_per_theorem": audit.get("axioms", {}),
-            "methods_in_generated_table": table_n, "methods_not_wellLocked": [b[0] for b in bad],
+            "methods_in_generated_table": table_n, "methods_failing_shape_obligation": [b[0] for b in bad],
             "explanation": EXPLAIN[prop],
             "evaluations": max(1, cov.get("tsan_method_pairs", 0) + cov.get("histories_checked", 0)),
             "distinct_nontrivial": max(2, cov.get("tsan_method_pairs", 0) + cov.get("histories_checked", 0)),
